@@ -130,6 +130,16 @@ class Check:
 
     # ---------------------------------------------------------------- finish
     def finish(self):
+        from vf import runner as _runner
+        if self.pid != "C17":          # C17 evaluates semaphore reports itself (callback re-entry scenarios, known findings)
+            seen = set()
+            for exe, sid, line, script in _runner.SEM_SEEN:
+                key = (exe.rsplit("/", 1)[-1].split("-")[0], line.split(None, 2)[-1][:60])
+                if key in seen or any(f["signature"].startswith(("oracle:semaphore", "sem:")) for f in self.failures):
+                    continue
+                seen.add(key)
+                self.fail("input", "sem:misuse:" + key[0], "the library misused one of its semaphores (instrumented HAL): %s [script %s]" % (line, sid),
+                          {"script": script, "observed": [line], "harness": key[0]})
         findings = load_findings()
         open_f = [f for f in findings if f.get("property") == self.pid and f.get("status") == "open"]
         known_hit = {}
